@@ -25,6 +25,10 @@ def gen_program(rng):
 
 
 def run(ctx):
+    # Tier B: FCElim.tla (elimination of a push / pop pair inside fc_process, publication records re-used by their threads; stack order = same-end pair
+    # of the deque); refuted: seeded change C10b (collide leaves the pop record's bEmpty alone)
+    vlib.model_check_many(ctx, [dict(module_rel="fc/FCElimMC.tla", cfg_rel="fc/FCElim_stack.cfg", workers=1),
+                                dict(module_rel="fc/FCElimMC.tla", cfg_rel="fc/FCElim_bad_noflag.cfg", workers=1, expect_violation="Conservation")], par=2)
     progs = list(PROGRAMS) + [gen_program(ctx.rng) for _ in range(2 if ctx.quick() else 8)]
     jobs = make_jobs(ctx, "stack", VARIANTS, progs)
     vlib.run_jobs(ctx, jobs)
